@@ -37,6 +37,15 @@ def nonzero_value(kind):
             lambda t: t[0] / 2 ** t[1])
     if kind == "small":
         return st.sampled_from([1.0, 2.0, 3.0, 5.0, -1.0, -2.0, 0.5, 4.0])
+    if kind == "frac":
+        # moderate magnitudes that need all 53 bits (no float32 / decimal
+        # detour survives them), no overflow when a few are added
+        return st.one_of(
+            st.tuples(st.integers(1, 2 ** 20),
+                      st.sampled_from([3.0, 7.0, 10.0, 1000.0, -3.0])).map(
+                lambda t: t[0] / t[1]),
+            st.sampled_from([16777217.0, 0.1, 1 / 3, 123456789.125,
+                             -0.30000000000000004, 2.0 ** 53 - 1, 1e-7]))
     if kind == "wild":
         return st.one_of(
             st.floats(allow_nan=False, allow_infinity=False).filter(
@@ -227,6 +236,11 @@ FORMS = ["dense", "dense", "lists", "triples", "dict", "csr", "csc", "coo",
          "csr_zeros", "csc_zeros", "coo_zeros", "list_arrays"]
 
 
+# only for checks whose ground truth is read from the built table (the
+# described values are rounded to single precision on the way in)
+FORMS_F32 = ["csr_f32", "csc_f32", "coo_f32"]
+
+
 def encode(rows, form, zeros_mask=None):
     """Encode the dense matrix `rows` (list of lists of float) as the
     constructor input `form`.  Returns (data, kwargs)."""
@@ -251,8 +265,15 @@ def encode(rows, form, zeros_mask=None):
         return d, {}
     if form == "list_arrays":
         return [a[i].copy() for i in range(n)], {}
+    if form in ("list_sparse_csr", "list_sparse_csc", "list_sparse_coo"):
+        mk = getattr(sp, form[-3:] + "_matrix")
+        return [mk(a[i:i + 1, :]) for i in range(n)], {}
     if form in ("csr", "csc", "coo", "lil", "dok", "bsr", "dia"):
         return getattr(sp, form + "_matrix")(a), {}
+    if form in FORMS_F32:
+        # single-precision sparse input (the table holds the float32 values,
+        # as doubles)
+        return getattr(sp, form[:3] + "_matrix")(a.astype(np.float32)), {}
     if form == "csr_unsorted":
         c = sp.csr_matrix(a)
         ind, dat, ptr = c.indices.copy(), c.data.copy(), c.indptr
@@ -301,7 +322,7 @@ def _md_in(md):
 @st.composite
 def table_specs(draw, tier="quick", values="int", ids="simple", md=True,
                 history=True, history_kind="any", forms=True, types=True,
-                distinct=False, min_dim=1, shape=None, poke=False):
+                distinct=False, min_dim=1, shape=None, poke=False, f32=False):
     n, m = shape if shape is not None else draw(shapes(tier, min_dim))
     rows = draw(matrices(n, m, values, distinct=distinct))
     spec = {
@@ -316,6 +337,8 @@ def table_specs(draw, tier="quick", values="int", ids="simple", md=True,
         spec["obs_md"] = spec["samp_md"] = None
     spec["type"] = draw(st.sampled_from([None] + TYPES)) if types else None
     spec["form"] = draw(st.sampled_from(FORMS)) if forms else "dense"
+    if f32 and forms and draw(st.sampled_from([False] * 9 + [True])):
+        spec["form"] = draw(st.sampled_from(FORMS_F32))
     if history:
         from . import ops
         spec["history"] = draw(ops.histories(history_kind,
@@ -461,7 +484,8 @@ def h5_table_specs(draw, tier="quick", allow_empty_axis=False, values="wild",
         "samp_md": draw(h5_md(m)),
         "type": draw(st.sampled_from([None] + TYPES)),
         "table_id": draw(st.one_of(st.none(), _H5TEXT1)),
-        "form": draw(st.sampled_from(FORMS)) if n and m else "dense",
+        "form": draw(st.sampled_from(FORMS + FORMS_F32[:1])) if n and m
+        else "dense",
         "history": draw(ops.histories("any", poke=poke)) if n and m else [],
     }
     for ax in ("obs_gmd", "samp_gmd"):
